@@ -296,6 +296,22 @@ class Outcome(object):
         self.extra = {}
 
 
+class EventClock(object):
+    """Wraps a session's simulation engine (an iterable of events) and remembers the time of the event being processed:
+    a failure is dated by the EVENT during which it was raised (the broker's own clock does not move when it refuses an update)."""
+    def __init__(self, inner):
+        self._inner = inner
+        self.last = None
+
+    def __iter__(self):
+        for ev in self._inner:
+            self.last = ev.ts
+            yield ev
+
+    def __getattr__(self, name):
+        return getattr(self._inner, name)
+
+
 class _Null(object):
     def write(self, _s):
         return 0
@@ -482,11 +498,12 @@ def run_real(c, rng=None, signals_factory=None, alpha_factory=None, csv_dir=None
                 out.extra["construction_error"] = str(e)[:300]
                 return out
             sess.qts.portfolio_construction_model = _PcmProxy(sess.qts.portfolio_construction_model, out)
+            sess.sim_engine = EventClock(sess.sim_engine)
             try:
                 with quiet(c):
                     sess.run(results=False)
             except Exception as e:
-                out.failure = (type(e).__name__, minutes(sess.broker.current_dt))
+                out.failure = (type(e).__name__, minutes(sess.sim_engine.last if sess.sim_engine.last is not None else sess.broker.current_dt))
                 out.extra["message"] = str(e)[:300]
             _marks, fills = ob.take()
         out.curve = [(minutes(t), fx(v)) for t, v in sess.equity_curve]
